@@ -569,15 +569,15 @@ Print Assumptions C19_consumers_env_exact_refuted.
 
 (** C19_consumers_flag_hides_env: an [--exclude] on the command line (any values, plain or not) makes the
     env list irrelevant -- it is replaced, not merged; without --env the list is the flags' alone; a
-    command without the flag ([migrate diff]) has the empty list whatever the env block says. *)
+    command without the flag ([migrate diff], [schema clean]) has the empty list whatever the env block says. *)
 Theorem C19_consumers_flag_hides_env :
   forall (c : command) (v : bytes) (occ : list bytes) (e : option (list bytes)),
     effective (mkInv c (v :: occ) e) = effective (mkInv c (v :: occ) None)
     /\ effective (mkInv c (v :: occ) None) = effective (mkInv c (v :: occ) (Some []))
-    /\ effective (mkInv CMigrateDiff [] e) = EOk [].
+    /\ (has_exclude_flag c = false -> effective (mkInv c [] e) = EOk []).
 Proof.
   intros c v occ e. split; [exact (effective_flag_wins c v occ e)|].
-  split; [exact (effective_no_env c (v :: occ))|exact (effective_migrate_diff e)].
+  split; [exact (effective_no_env c (v :: occ))|exact (effective_no_flag c e)].
 Qed.
 Print Assumptions C19_consumers_flag_hides_env.
 
@@ -586,6 +586,28 @@ Example C19_consumers_flag_hides_env_nonvacuous :
   /\ effective (mkInv CApply [] (Some [[116;50]%N])) = EOk [[116;50]%N]
   /\ effective (mkInv CMigrateDiff [] (Some [[116;50]%N])) = EOk [].
 Proof. split; [vm_compute; reflexivity|]. split; vm_compute; reflexivity. Qed.
+
+(** C19_consumers_env_ignored_refuted.  Statement as worded for the project-file form: "a resource that
+    matches a pattern of the exclude list of the env selected with --env is never created or dropped by a
+    plan of a command run with that env."  False of the faithful model for the two commands that have
+    no exclude flag: with exclude = ["t"], [schema clean --env e] plans DROP TABLE t and
+    [migrate diff --env e] plans CREATE TABLE t, while [schema apply --env e] with the same env leaves t
+    alone.  Reproduced on the real CLI by the consumers stage (findings C19-schema-clean-ignores-env-exclude,
+    C19-migrate-diff-ignores-env-exclude); what does hold: C19_consumers_flag_hides_env (3) -- the list of
+    such a command is empty for every env -- and C19_consumers_same_patterns. *)
+Theorem C19_consumers_env_ignored_refuted :
+  exists (ps : list bytes) (n : bytes) (s0 s1 : schema),
+    In n ps /\ gmatch n n = EOk true
+    /\ command_diff (mkInv CClean [] (Some ps)) [s1] [s0] = EOk ([s1], [s0], Some [DropTable n])
+    /\ command_diff (mkInv CMigrateDiff [] (Some ps)) [s0] [s1] = EOk ([s0], [s1], Some [AddTable n])
+    /\ command_diff (mkInv CApply [] (Some ps)) [s1] [s0] = EOk ([s0], [s0], Some []).
+Proof.
+  exists [[116]%N], [116]%N, (mkSchema [109]%N []),
+         (mkSchema [109]%N [mkTable [116]%N false false [ex_col 97] None [] [] []]).
+  split; [left; reflexivity|]. split; [vm_compute; reflexivity|].
+  split; [vm_compute; reflexivity|]. split; vm_compute; reflexivity.
+Qed.
+Print Assumptions C19_consumers_env_ignored_refuted.
 
 (** C19_consumers_same_patterns.  "For every command both sides of the diff are filtered by the same
     pattern list": for every invocation (command, flag occurrences, env list) and raw states, when the
